@@ -452,7 +452,9 @@ pub fn moments(data: &[u8], known: &[&str]) -> Option<Found> {
         }
         3 => {
             let mode = (sub >> 4) % 3;
-            match sub % 6 {
+            match sub % 8 {
+                6 => run("C04", &c04::s7(), &Xs { xs: c04::rescale_to_edge(&xs, 7, mode) }, known),
+                7 => run("C04", &c04::s9(), &Xs { xs: c04::rescale_to_edge(&xs, 9, mode) }, known),
                 0 => run("C04", &c04::s4(), &Xs { xs: c04::rescale_to_edge(&xs, 4, mode) }, known),
                 1 => run("C04", &c04::s5(), &Xs { xs: c04::rescale_to_edge(&xs, 5, mode) }, known),
                 2 => run("C04", &c04::s6(), &Xs { xs: c04::rescale_to_edge(&xs, 6, mode) }, known),
